@@ -275,12 +275,21 @@ def _build_records(trees, known):
                 continue
             if any(q.startswith("%s.%s." % (modname, st.name)) for q in known):
                 continue
-            methods, ok = {}, True
+            methods, ok, props = {}, True, {}
             for m in st.body:
                 if isinstance(m, ast.Expr) and isinstance(m.value, ast.Constant):
                     continue
                 if isinstance(m, ast.Pass):
                     continue
+                if isinstance(m, ast.FunctionDef) and [_dec(d) for d in m.decorator_list] == ["property"] and m.name not in methods and m.name not in props and len(m.args.args) == 1:
+                    # a read-only property that returns an expression of the fields
+                    pb = [b for b in m.body if not (isinstance(b, ast.Expr) and isinstance(b.value, ast.Constant))]
+                    if len(pb) == 1 and isinstance(pb[0], ast.Return) and pb[0].value is not None and not any(isinstance(n, (ast.Await, ast.Yield, ast.YieldFrom, ast.Lambda, ast.NamedExpr)) for n in ast.walk(pb[0].value)) \
+                            and all(isinstance(n.func, ast.Name) and n.func.id in IMMUTABLE_BUILTINS for n in ast.walk(pb[0].value) if isinstance(n, ast.Call)):
+                        props[m.name] = (m.args.args[0].arg, pb[0].value)
+                        continue
+                    ok = False
+                    break
                 if not isinstance(m, ast.FunctionDef) or m.decorator_list or m.name in methods:
                     ok = False
                     break
@@ -315,7 +324,19 @@ def _build_records(trees, known):
                     break
             if not ok or not fields:
                 continue
-            if any(f in methods for f in fields):
+            if any(f in methods or f in props for f in fields):
+                continue
+            bad_prop = False
+            for pn, (psn, pe) in props.items():
+                for n in ast.walk(pe):
+                    if isinstance(n, ast.Name) and n.id == psn:
+                        pass
+                    elif isinstance(n, ast.Name) and n.id not in IMMUTABLE_BUILTINS:
+                        bad_prop = True
+                bases_ = set(id(n.value) for n in ast.walk(pe) if isinstance(n, ast.Attribute) and isinstance(n.value, ast.Name) and n.value.id == psn and (n.attr in fields or n.attr in props))
+                if any(isinstance(n, ast.Name) and n.id == psn and id(n) not in bases_ for n in ast.walk(pe)):
+                    bad_prop = True
+            if bad_prop:
                 continue
             needs_of = {}
             for name, m in methods.items():
@@ -324,6 +345,7 @@ def _build_records(trees, known):
                     needs_of[name] = (m, frozenset(needs))
             if "__init__" not in needs_of:
                 continue
+            st._sa_props = props
             RECORDS[st.name] = (st, modname, needs_of, tuple(fields))
 
 
@@ -3710,6 +3732,30 @@ class Inliner(object):
             if rec is None:
                 continue
             kdef, home, methods, fields = rec
+            props = getattr(kdef, "_sa_props", {})
+            if props:
+                # `v.p` for a read-only property p: the expression it returns, with v for self (repeated: a property may read another)
+                for _r in range(4):
+                    hit = False
+                    for n in list(ast.walk(caller)):
+                        for fld, val in ast.iter_fields(n):
+                            vals = val if isinstance(val, list) else [val]
+                            for k_, c in enumerate(vals):
+                                if isinstance(c, ast.Attribute) and isinstance(c.ctx, ast.Load) and isinstance(c.value, ast.Name) and c.value.id == v and c.attr in props:
+                                    psn, pe = props[c.attr]
+
+                                    class RP(ast.NodeTransformer):
+                                        def visit_Name(self, x):
+                                            return ast.copy_location(ast.Name(id=v, ctx=ast.Load()), x) if x.id == psn else x
+                                    newe = ast.copy_location(RP().visit(copy.deepcopy(pe)), c)
+                                    ast.fix_missing_locations(newe)
+                                    if isinstance(val, list):
+                                        val[k_] = newe
+                                    else:
+                                        setattr(n, fld, newe)
+                                    hit = True
+                    if not hit:
+                        break
             parent = {}
             for n in ast.walk(caller):
                 for c in ast.iter_child_nodes(n):
